@@ -16,7 +16,7 @@ CHECKS = {
         text="Theorems over Storage/Cache.v for every budget, key set and history of any length: usage <= budget, usage = sum of resident sizes, "
              "oversize never resident, victims are exactly the least-recently-used prefix for the least n that makes room, served reads / is-memoized hits refresh recency, "
              "any covering sequence of forgets returns the counter to zero. The model is compared with the real MemoryCache after every operation of generated histories "
-             "(answers, memory_usage, resident set) with eviction-order probes.",
+             "(answers, memory_usage, resident set) with eviction-order probes. Also: the invariant (honest accounts, budget, every resident entry exactly once in the LRU list) checked THROUGH a storage backend: single calls, batches with repeated elements, warm store / cold cache, forgetting.",
         note="Assumes the size estimator returns non-negative sizes (hypothesis op_ok; sizes fed to the model are the implementation's own estimates). "
              "Weak-reference collection is an explicit environment operation. Concurrency is C09's subject.",
         ref="6/C06"),
@@ -26,7 +26,7 @@ CHECKS["C05"] = dict(
     technique="Coq proof (simulation: write-through cache over a dictionary-like store refines the dictionary, for all histories/budgets) + differential execution of real backends against the dictionary spec inside Coq + AST source facts",
     text="Theorem cache_layer_refines_dict (Storage/LayerProofs.v): StorageBackendBase with a MemoryCache of any budget answers every operation of every history exactly as the dictionary keyed by (qualified name, arg hash), "
          "instantiated with the facts extracted from the current source (Gen/Facts*.v); prefix_scope makes f/f1 and #1/#10 safe. The filesystem (shared / separate metadata path, with / without cache) and memory backends are run on generated histories "
-         "and fixed scenarios; every answer, the cache's usage / resident set and store touches are compared with the model by vm_compute. Also: the same bytes memoized again after forget-everything / forget-function.",
+         "and fixed scenarios; every answer, the cache's usage / resident set and store touches are compared with the model by vm_compute. Also: the same bytes memoized again after forget-everything / forget-function, custom metadata (plain and stored with the data) across re-memoizing the same result.",
     note="The data-source stack below the cache (directory tree emulation of versioned objects, metadata paths) is represented by its dictionary specification in the theorem and tied to the code by differential execution only. "
          "Hypothesis wfop: qualified names contain no '/'. Reads go through a freshly fetched memento, as the runner does.",
     ref="6/C05")
@@ -34,7 +34,7 @@ CHECKS["C07"] = dict(
     technique="Coq proof (invariants of the content-addressed versioned store by induction over histories) + whole-store scan after every operation compared with the model's object table by vm_compute",
     text="Theorems over Storage/VStore.v for every history: bytes under a content key hash to it (digest = arbitrary function, no injectivity assumed), a content key never has two versions, stored objects are never modified or removed "
          "by later memoizes / override-key rewrites / null-with-override / forgets of calls and functions, a memento keeps reading its bytes, forget deletes nothing from the data store. The real filesystem backends are driven with shared override keys "
-         "and repeated contents; after every step all files are re-hashed and the object table is compared with the model. Also: interrupted blob / link writes followed by a dedup store; partitions with repeated members.",
+         "and repeated contents; after every step all files are re-hashed and the object table is compared with the model. Also: interrupted blob / link writes followed by a dedup store; partitions with repeated members; a live memento keeps reading ITS value (two calls under one override key, evicted, read in turn); override keys containing '#'.",
     note="Fault-free histories (crash points are C08). uuid4 freshness is an oracle (version counter). forget_everything on a shared data/metadata tree removes the data as well (by design of the recursive delete) and is excluded from immutability.",
     ref="6/C07")
 CHECKS["C19"] = dict(
@@ -49,7 +49,7 @@ CHECKS["C08"] = dict(
     technique="Coq proof by reflection over a finite store model (closed reachable set under calls / crash prefixes / I/O faults, every state good => all histories) for the configuration extracted from the source + exhaustive fault injection on the real filesystem backend compared with the model's prediction",
     text="Theorem crash_safe_all_histories: for any sequence, of any length, of calls by two functions producing the same bytes, each completing or cut at any primitive file operation (link files caught empty / at a directory boundary / elsewhere), "
          "every later call returns the value, raises nothing, and the next one is served from the store; instantiated with the reader / write-order facts extracted from the current source, with refutation theorems for the exists() reader, link-before-object and memento-before-data. "
-         "Implementation: every mutating file-system call of the memoizing call x {death before, ENOSPC before, death / ENOSPC mid-write with 4 truncation shapes} x scenarios, restart, recovery calls F,F,G,G; outcomes compared with the model and with the property directly.",
+         "Implementation: every mutating file-system call of the memoizing call x {death before, ENOSPC before, death / ENOSPC mid-write with 4 truncation shapes} x scenarios, restart, recovery calls F,F,G,G; outcomes compared with the model and with the property directly. Also: after an injected crash nothing more reaches the file system (clean-up code runs but its file operations are refused, as after a real process death); a faulted write when another function already memoized the same result.",
     note="Fault granularity: Python-level file-system calls; file content after a fault is old, empty or a prefix. Not modelled: power loss with unsynced page cache, torn renames, concurrent writers. "
          "Restart is simulated in-process by rebuilding all backend objects. The model covers the plain content-addressed value path; null / exception / override / partition / nested scenarios are checked on the implementation only.",
     ref="6/C08")
@@ -89,7 +89,7 @@ CHECKS["C12"] = dict(
     text="Theorems over Codec/QName.v: for any cluster without '#', dotted-identifier module/function names and ANY version string (':' '#' '::' included) the qualified name splits back into exactly its parts; resolving a stored reference against any registry never errors and yields the local function when the version is current, an external reference otherwise; "
          "refutations for the greedy pattern, for prefix-after-version and for the default-cluster assertion; the format is ambiguous without '#'-free clusters. The source's pattern literal, construction order and external stub are extracted every run. "
          "Implementation: parse_qualified_name vs the functional description on all strings up to length 5/6 over {a . : # @}; random admissible quadruples through real decorated functions, a filesystem store and all listing APIs; "
-         "caller/callee evolutions (re-version, remove, rename, re-cluster, body edit, zero-parameter callee) in default and named clusters. Also: entries read before the callee is edited in the same process; memento functions passed as arguments.",
+         "caller/callee evolutions (re-version, remove, rename, re-cluster, body edit, zero-parameter callee) in default and named clusters. Also: entries read before the callee is edited in the same process; memento functions passed as arguments; every listed function (vanished versions included) lists its entries; the evolutions over the in-memory backend.",
     note="That Python's re computes what parse_split / parse_greedy say is validated (exhaustively on short strings), not proved. 'Entries stored under it can be found again' is carried by the C05 storage refinement and checked here on the real store.",
     ref="6/C12")
 
@@ -112,12 +112,12 @@ CHECKS["C10"] = dict(
 CHECKS["C15"] = dict(
     technique="Coq proof (flipping 'make the sub-calls as one batch' anywhere leaves the whole run result unchanged: outcomes, store, executions, mementos, for all programs and stores) + root-level call_batch / map_over_range vs individual calls on twin stores",
     text="Theorem batch_eq_elementwise (no assumption on the store): bulk pre-check then element-by-element equals one-after-the-other for any mix of memoized, new, duplicated and failing elements; elements are transparent and run at most once. "
-         "Implementation: batch-heavy DAGs vs the model; root-level batches (0-6 elements, duplicates, failures) x pre-memoized subsets x raise_first_exception x context args compared with individual calls on a twin store by position, store state and executions; map_over_range over lists, ranges and one-shot iterables with partial prefixes. Also: batches mixing Python-equal values (1 / 1.0 / True), elements whose result cannot be stored.",
+         "Implementation: batch-heavy DAGs vs the model; root-level batches (0-6 elements, duplicates, failures) x pre-memoized subsets x raise_first_exception x context args compared with individual calls on a twin store by position, store state and executions; map_over_range over lists, ranges and one-shot iterables with partial prefixes. Also: batches mixing Python-equal values (1 / 1.0 / True), elements whose result cannot be stored, several different pre-memoized elements (failures among them) on every kind of backend.",
     note=RUN_NOTE, ref="6/C15")
 CHECKS["C16"] = dict(
     technique="Coq proof (the effective context is a component of every key; recorded sub-call keys = inherit-or-override of the caller's context, for all programs / stores) + context-heavy DAGs vs the model + direct separation / prevention checks",
     text="Theorems: nested calls are recorded under the caller's effective context unless the edge overrides it (the explicit empty override included), entries stored under one context are invisible under another, calls are transparent and served per context. "
-         "Implementation: DAGs where most edges override the context (incl. on batched edges) under two root contexts on three backends vs the model; results under different contexts must be computed and then served separately; prevented calls must refuse nested calls with RuntimeError whether or not they are memoized. Also: prevention on inner edges, None-valued context entries.",
+         "Implementation: DAGs where most edges override the context (incl. on batched edges) under two root contexts on three backends vs the model; results under different contexts must be computed and then served separately; prevented calls must refuse nested calls with RuntimeError whether or not they are memoized. Also: prevention on inner edges, None-valued context entries, context values equal for Python (1 / True / 1.0).",
     note=RUN_NOTE + "'Bodies never receive context arguments' is observed (a generated body receiving one would raise TypeError), not modelled; with_prevent_further_calls is checked on the implementation only.",
     ref="6/C16")
 
@@ -133,7 +133,7 @@ CHECKS["C14"] = dict(
     technique="Coq proof (collected rule set = reachability in the reference graph, by soundness of saturation + completeness of a checked fixpoint; transitive / direct sets characterised) + differential runs over reference graphs (exhaustive for small N, random beyond) incl. enforcement of undeclared calls",
     text="Theorems over Version/Rules.v: for every program, once saturation is closed (a boolean evaluated on every case) the collected hash rules are exactly the rules reachable from the function; the reported transitive memento dependencies are exactly the memento functions reachable through memento functions and in-scope plain functions; "
          "the direct ones exactly those named in the body; no rule is collected twice. Implementation: ALL graphs on 1..2 (quick) / 1..3 (thorough) nodes of kinds {auto memento, pinned memento, plain} with every edge set (self loops, cycles), plus random graphs on 3-6 nodes with reference forms {bare, module attribute, alias, decorator-wrapped}; "
-         "transitive / direct sets, function rule keys and dependency-graph edges compared with the model and with plain reachability; hidden dynamic calls outside the closure must raise UndeclaredDependencyError directly and through every modifier clone, also after the target was once legitimately passed as an argument. Also: references inside the argument of a dereferenced call, explicitly versioned intermediate nodes, __init__-module packages.",
+         "transitive / direct sets, function rule keys and dependency-graph edges compared with the model and with plain reachability; hidden dynamic calls outside the closure must raise UndeclaredDependencyError directly and through every modifier clone, also after the target was once legitimately passed as an argument. Also: references inside the argument of a dereferenced call, explicitly versioned intermediate nodes, __init__-module packages, memento functions behind class-based decorators and functools.lru_cache, hidden edges exercised through call_batch and map_over_range.",
     note="Name resolution is performed by the implementation on live objects; the model receives resolved edges. The enforcement half is decided by the harness (the model fixes which calls are outside the closure).",
     ref="6/C14")
 
@@ -141,7 +141,7 @@ CHECKS["C03"] = dict(
     technique="Coq proof (the digest input = rule contents in canonical key order is invariant under any reordering of reference iteration; keys identify rules) + differential fresh-interpreter runs across PYTHONHASHSEED / import order / definition order / query order, rule set vs model, second process executes no body",
     text="Theorems over Version/Rules.v: two presentations of a program that differ only in the order in which each function's references are iterated feed the same sequence of rule contents to the digest (collect is order-dependent as a list, the sorted list is not); rule sort keys are injective. "
          "Implementation: generated programs (memento / plain functions, variables, undefined names, cycles, aliases, module attributes, int-set and string-set constants, defaults, nested code) are loaded in fresh interpreters under different hash seeds, import orders, definition orders and version-query orders; "
-         "versions, ordered rule lists and per-rule hashes must be identical, the rule set must be the model's, the version must be the digest of rule hashes in key order, and a second process against the same store must execute no body. Also: a second package with an out-of-scope helper, unorderable set globals, object-valued defaults, lambda helpers, string literals inside generator expressions, same-named variables of two modules, helpers named only in the header (default value) of their user, dependencies declared by hand and re-bound in the running process, hidden calls of already memoized functions.",
+         "versions, ordered rule lists and per-rule hashes must be identical, the rule set must be the model's, the version must be the digest of rule hashes in key order, and a second process against the same store must execute no body. Also: a second package with an out-of-scope helper, unorderable set globals, object-valued defaults, lambda helpers, plain helpers behind functools.partial / lru_cache objects.",
     note="PYTHONHASHSEED values are sampled. sha256 and the byte-level content of each rule hash are not modelled (contents are abstract numbers); per-rule hashes are compared between processes instead.",
     ref="6/C03")
 
@@ -151,7 +151,7 @@ CHECKS["C01"] = dict(
          "for any version function under which equal versions imply equal behaviour and any history of editions and calls against a persistent store, the memoizing evaluator (look-ups at every memento function, nested results stored) returns exactly what un-memoized evaluation of the current edition returns (invariant over the store); "
          "fixed-width concatenation is injective; refutations: defaults not hashed, variable-width rule hashes. Source facts: defaults hashed, explicit versions hashed to the common width. "
          "Implementation: generated programs x edit histories (bodies, constants incl. swapped constants, defaults, keyword-only defaults, set / string-set / tuple constants, nested code, call edges, variable values, explicit versions) delivered to fresh interpreters against one persistent store and inside one interpreter (reload / exec / setattr); "
-         "every call compared with plain undecorated execution of the current edition (or UndeclaredDependencyError); every pair of editions: implementation's version-changed verdict = model's. Also: a second package (helpers of another package's memento function), nested scopes named like globals, builtins shadowed in the running process, object-valued defaults, lambda helpers.",
+         "every call compared with plain undecorated execution of the current edition (or UndeclaredDependencyError); every pair of editions: implementation's version-changed verdict = model's. Also: a second package (helpers of another package's memento function), nested scopes named like globals, builtins shadowed in the running process, object-valued defaults, lambda helpers, string literals inside generator expressions, same-named variables of two modules, helpers named only in the header (default value) of their user, dependencies declared by hand and re-bound in the running process, hidden calls of already memoized functions.",
     note="Body semantics is abstract in the model (any function of code, defaults and referenced values); sha256 truncation is treated as injective; symbols of the model are invocations (programs numbered topologically = recursion terminates). Histories are sampled.",
     ref="6/C01")
 
@@ -160,7 +160,7 @@ CHECKS["C13"] = dict(
     text="Theorems over Version/VCache.v: worlds map names to definitions with fresh stamps per executed definition; if no rule collected in an earlier world observes a change (variable value, identity of a plain / memento function, definedness), the from-scratch version is unchanged (reachability both ways + contents); "
          "for every history of Define / Alias / Query events, each query returns the from-scratch version of the current world (invariant J); refuted when memento-function rules only check 'still a memento function' (alias re-binding). Source facts: identity comparison in did_change; rule-less instances recompute. "
          "Implementation: generated programs x histories of 4-12 in-process events {redefine memento / plain, new default, rebind / mutate variable, define undefined name, memento <-> plain, rebind alias, clone, unregistered wrapper, change-then-clone} with version queries after every event, "
-         "each answer compared with a fresh interpreter's version of the program as it stands; successive from-scratch versions compared with the model's version verdict. Also: builtin names defined later, definition as None, lists mutated inside tuples, clones made right after a change.",
+         "each answer compared with a fresh interpreter's version of the program as it stands; successive from-scratch versions compared with the model's version verdict. Also: builtin names defined later, definition as None, lists mutated inside tuples, clones made right after a change, mutable module variables used as default values and mutated in place (source fact code_hash_refreshed).",
     note="Not modelled in Coq: the version computed while a function is being decorated, clones / unregistered instances (they share or lack rules), the cluster lock; the harness exercises the first two against the implementation. Rebinding a variable of an unsupported type to a supported one is outside the property (untracked variable).",
     ref="6/C13")
 
